@@ -14,7 +14,10 @@ use std::sync::{Arc, Mutex};
 use tower_lsp_server::ls_types::*;
 
 const CONFTEST: &str = "import pytest\n\n@pytest.fixture\ndef fx():\n    return 1\n";
-const SIBLING: &str = "import pytest\n\n@pytest.fixture\ndef sibfx():\n    return 1\n";
+// directories beside t/: their conftest.py files are not visible from the test, whatever they define —
+// also a fixture called `fx` like the visible one (one registered before the root conftest, one after it)
+const SIBLING: &str = "import pytest\n\n@pytest.fixture\ndef sibfx():\n    return 1\n\n@pytest.fixture\ndef fx():\n    return 2\n";
+const SIBLING_LATE: &str = "import pytest\n\n@pytest.fixture\ndef fx():\n    return 3\n";
 
 fn paths() -> (PathBuf, PathBuf, PathBuf) {
     (PathBuf::from("/nonexistent/ws/conftest.py"), PathBuf::from("/nonexistent/ws/zsib/conftest.py"), PathBuf::from("/nonexistent/ws/t/test_case.py"))
@@ -23,8 +26,9 @@ fn paths() -> (PathBuf, PathBuf, PathBuf) {
 fn fresh_db(text: &str) -> Arc<FixtureDatabase> {
     let (c, s, t) = paths();
     let db = Arc::new(FixtureDatabase::new());
-    db.analyze_file(c, CONFTEST);
     db.analyze_file(s, SIBLING);
+    db.analyze_file(c, CONFTEST);
+    db.analyze_file(PathBuf::from("/nonexistent/ws/ysib/conftest.py"), SIBLING_LATE);
     db.analyze_file(t, text);
     db
 }
